@@ -820,6 +820,10 @@ int main(int argc, char **argv)
                      case_timeout * 2, s.cls);
             record_failure("hang", L.suite, L.local, key, det);
         }
+        else if (r == 1 && WIFEXITED(st) && WEXITSTATUS(st) == 77)
+        {
+            crashes++; // the harness recorded its own attributed failure and left with 77
+        }
         else if (r == 1)
         {
             crashes++;
